@@ -454,6 +454,11 @@ class Prov:
                     if name == "0":
                         return ("payload", base, var)
                     return ("field", ("payload", base, var), name)
+                if name == "1":
+                    # `for (i, x) in xs.iter().enumerate()`: the element half of the pair is xs[i] (i = the index half)
+                    base = _enumerated(t)
+                    if base is not None:
+                        return ("index", base, ("field", t, "0"))
                 return ("field", t, name)
             if "dc" in e:
                 if t[0] == "agg" and t[2] == e["dc"]:
@@ -533,6 +538,22 @@ def _contains_rec(t):
                 if _contains_rec(y):
                     return True
     return False
+
+
+def _enumerated(t):
+    """X when t is `X.iter().enumerate().next()?` (through references / by_ref / into_iter), else None."""
+    if t[0] != "q":
+        return None
+    c = t[1]
+    if c[0] != "call" or c[1].rsplit("::", 1)[-1] != "next" or len(c[2]) != 1:
+        return None
+    x = c[2][0]
+    enum = False
+    while x[0] == "call" and x[1].rsplit("::", 1)[-1] in ("enumerate", "iter", "iter_mut", "into_iter", "by_ref") and len(x[2]) == 1:
+        if x[1].rsplit("::", 1)[-1] == "enumerate":
+            enum = True
+        x = x[2][0]
+    return x if enum else None
 
 
 def prov_assuming(fn, assumptions, ctx=None, cut=False):
